@@ -11,6 +11,15 @@ def main():
     ap.add_argument("--replay", default=None)
     a = ap.parse_args()
     os.environ["VERIF_TIER"] = a.tier
+    # watchdog: a check that does not end by itself is inconclusive, never silent
+    import signal
+    limit = int(os.environ.get("VERIF_WATCHDOG_S", "3000" if a.tier == "quick" else "14400"))
+
+    def _alarm(signum, frame):
+        print("INCONCLUSIVE %s: watchdog - the check did not finish within %d s" % (a.prop, limit), flush=True)
+        os._exit(2)
+    signal.signal(signal.SIGALRM, _alarm)
+    signal.alarm(limit)
     try:
         mod = importlib.import_module("checks." + a.prop.lower())
     except ModuleNotFoundError:
